@@ -70,7 +70,11 @@ fn main() {
                 }
             }
         }
-        let extra = rng.below(3);
+        // now and then MANY unmentioned variables (40 ... 1200) beside the sketch: "the answer does not
+        // depend on how many" variables or constraints exist - a threshold that grows with the number of
+        // free variables, a buffer sized for small sketches, shows up only here
+        let many = i % 23 == 11;
+        let extra = if many { *rng.pick(&[40usize, 150, 150, 400, 1200]) } else { rng.below(3) };
         for _ in 0..extra {
             let id = sys.guesses.len() as u32;
             sys.guesses.push((id, sys.scale * rng.sym()));
@@ -137,7 +141,7 @@ fn main() {
         }
         let fell_back = sys.reqs.iter().any(|r| r.priority() > o.outcome.priority_solved());
         println!(
-            "DOF {{\"fell_back\": {fell_back}, \"nvars\": {nv}, \"degenerate\": {flagged}, \"reported\": {:?}, \"rows\": [{}], \"scale\": {}, \"requests\": [{}], \"x\": [{}]}}",
+            "DOF {{\"fell_back\": {fell_back}, \"unmentioned_added\": {extra}, \"nvars\": {nv}, \"degenerate\": {flagged}, \"reported\": {:?}, \"rows\": [{}], \"scale\": {}, \"requests\": [{}], \"x\": [{}]}}",
             o.analysis.underconstrained(),
             rows.iter().map(|r| format!("[{}]", r.iter().map(|v| format!("{v:e}")).collect::<Vec<_>>().join(", "))).collect::<Vec<_>>().join(", "),
             sys.scale,
